@@ -103,6 +103,7 @@ template <class T> struct Exact {
 	if (ch_try_ == 0 && failed && ch_alloc_ && c.strict_enomem) { fault_failed(c, FN, err, true); ch_pend_ = err; if (!c.no_retry) continue; } \
 	if (ch_try_ == 1 && !failed) fault_recovered(c, FN, ch_pend_, true); \
 	c.log(" %s -> %s errno=%s", FN, failed ? "FAIL" : "ok", failed ? errno_name(err) : "-"); \
+	if (failed && c.verbose && !g_sim.callbacks.empty()) fprintf(stderr, "   [%s]\n", g_sim.callbacks.back().msg.c_str()); \
 	break; \
     }
 #define MUST_FAIL(COND, FN, WHY) \
@@ -211,6 +212,7 @@ static void run_op(ChWorld &w, const Op &op)
 	    for (int i = 0; i < std::max(ar, 1); ++i) for (int j = 0; j < std::max(ac, 1); ++j) ap[(size_t)i * (size_t)std::max(ac, 1) + j] = &a.at(i, j, 0);
 	    bool h1ok, h2ok;
 	    int h1 = pick_handle(w, op.I(8), h1ok), h2 = pick_handle(w, op.I(9), h2ok);
+	    if (op.I(11) == 1 && !w.handles.empty()) { h1 = w.handles.back(); h1ok = live_handle(w, h1); }	// the parameter made last
 	    int smat[4] = {h1, VNACAL_ZERO, VNACAL_ZERO, h2};
 	    int pmap[2] = {(int)p1, (int)p2};
 	    int rc = 0;
@@ -270,6 +272,7 @@ static void run_op(ChWorld &w, const Op &op)
 	    MUST_FAIL(!ok, "vnacal_make_unknown_parameter", strf("initial-guess handle %d, which is not live", other));
 	} else {
 	    bool ok, nok; int other = pick_handle(w, op.I(1), ok);
+	    if (op.I(6) == 1 && !w.handles.empty()) { other = w.handles.back(); ok = live_handle(w, other); }	// correlated with the parameter made last
 	    long n = pick(op.I(2), 3, nok, 1);
 	    if (n > 64) n = 64;
 	    Exact<double> fv(n), sv(n);
@@ -501,6 +504,15 @@ Plan chaos_gen(const std::string &check, const std::string &tier, uint64_t seed,
 	plan.ops.push_back(mk("addcal", {slot, rng.below(10)}));
 	plan.ops.push_back(mk("apply", {good(), good(), 0, 0, rng.below(2), rng.below(3), rng.below(2)}));
     };
+    // a standard whose parameter is correlated with another one that the calibration has not seen yet
+    auto backbone_correlated = [&](int slot) {
+	plan.ops.push_back(mk("mkparam", {0, good(), good()}));
+	plan.ops.push_back(mk("mkparam", {3, good(), 0, 0, good(), 0, 1}));	// one sigma value: no frequency range of its own
+	plan.ops.push_back(mk("new", {slot, rng.pick(std::vector<long>{0, 1, 2, 3, 6, 8}) * 10, 0, 0, rng.range(1, 2) * 10}));
+	plan.ops.push_back(mk("setfv", {slot, 0}));
+	plan.ops.push_back(mk("add", {slot, 0, rng.below(2), 0, 0, 0, 0, 0, good(), good(), 0, 1}));
+    };
+    if (c12 && rng.chance(0.4)) backbone_correlated((int)rng.below(NS));
     if (rng.chance(0.7)) backbone((int)rng.below(NS));
     for (long q = 0; q < nops; ++q) {
 	double u = rng.uni();
